@@ -20,6 +20,10 @@ Bounded-exhaustive enumeration (engine E4) over flat listings [(path, mode, id)]
         with renames/copies taken apart again equals the plain diff; commit_tree_changes(A, changes) ==
         tree id of B for every order of the change list (<= 3 changes: all permutations).
 
+Besides the squares over the path pool there are two generated families (round 3): `twins` (every assignment of
+equal / different / absent subtrees to the directories a, a-, c/x, c/y: the same pair of subtree ids at several
+paths) and `dupsrc` (2-3 files with one blob id in A, each deleted / kept / modified / chmod in B, 0-3 new copies).
+
 Both implementations are exercised: pass 1 binds the Rust extensions rebuilt from the working tree
 (common.preload_rust), pass 2 runs in fresh worker processes where the extension imports are blocked
 before dulwich.objects / dulwich.diff_tree are imported (common.block_rust).
